@@ -57,14 +57,23 @@ func (o *Obligation) scriptTextG(withModel, ground bool) string {
 	var b strings.Builder
 	for _, l := range o.Script.lines[:o.Prefix] {
 		if ground && strings.HasPrefix(l, "(assert") && strings.Contains(l, "(forall ((q.") {
-			continue
+			// keep the quantifier-free conjuncts of the assertion (weaker assumption)
+			w, ok := weakenForalls(l, 1)
+			if !ok {
+				continue
+			}
+			l = w
 		}
 		b.WriteString(l)
 		b.WriteByte('\n')
 	}
 	for _, l := range o.Extra {
 		if ground && strings.HasPrefix(l, "(assert") && strings.Contains(l, "(forall ((q.") {
-			continue
+			w, ok := weakenForalls(l, 1)
+			if !ok {
+				continue
+			}
+			l = w
 		}
 		b.WriteString(l)
 		b.WriteByte('\n')
